@@ -129,4 +129,5 @@ def gen_history(rng, phens, cache, n_ops, data_hi=4, p_remote=0.4):
             finished += out[i:j].split()
         seen += _parse_table(out)
         seen = seen[-50:]
-    return Case(phens, cache, ops, 'remote-mix')
+    # a third of the histories: a further subscriber that fails on notifications of finished runs (drive_decider.Bomb)
+    return Case(phens, cache, ops, 'remote-mix+bomb' if rng.random() < 0.34 else 'remote-mix')
